@@ -4,7 +4,7 @@
     model with Lua's scoping outside the known classes K1-K5 (C01_agreement_statement below) is
     evaluated on every case by the correspondence run; its general proof is still open. *)
 From Selene Require Import Scope.Interp Scope.Balanced Scope.Spec Scope.Zones Lints.ScopeLints Lints.ScopeLintsFacts
-  Scope.Fragment Scope.Agreement.
+  Scope.Fragment Scope.Agreement Scope.GFragment Scope.GAgreement.
 
 Theorem C01_report_exactly_once : forall s roots,
   NoDup (undefined_report s roots) /\
@@ -28,17 +28,20 @@ Theorem C01_close_never_pops_root : forall chunk pre post s,
 Proof. exact close_never_pops_root. Qed.
 Print Assumptions C01_close_never_pops_root.
 
-(** Agreement with Lua, the direction users rely on most, proved for every program without function
-    *expressions* (function statements, local functions, methods, every block / loop / if form and all
-    known-class situations K1-K5 included): an identifier that Lua binds to a local variable, parameter,
-    loop variable or `self` is never reported, whatever the standard library is.  [ok_block] and the
-    distinctness of token ranges are checked on every generated case (code bit 2 / evidence). *)
+(** Agreement with Lua, in the direction users rely on most, for EVERY Lua 5.1 program (the only
+    requirement: no declared name is literally "..."): an identifier that Lua binds to a local variable,
+    parameter, loop variable or `self` is never reported, whatever the standard library is - function
+    expressions, closures walked late, multi-name locals, numeric-for bounds and surplus expressions
+    (the situations of the known classes K1-K4) included.  Proved by a simulation between the model's
+    walk and the Lua resolver (Scope/Sim*.v), function bodies inside expressions being replayed from the
+    environment they were written in (Scope/Replay.v ... GAgreement.v).  [gok_block] and the distinctness
+    of token ranges are checked on every generated case (code bit 2 / evidence). *)
 Theorem C01_never_reports_locals : forall chunk roots s,
-  ok_block chunk = true ->
+  gok_block chunk = true ->
   NoDup (map (fun o => t_range (o_tok o)) (occs chunk)) ->
   scope_manager chunk = Some s ->
   forall o d, In o (occs chunk) -> o_bind o = OLocal d -> ~ In (t_range (o_tok o)) (undefined_report s roots).
-Proof. exact undefined_never_on_locals. Qed.
+Proof. exact undefined_never_on_locals_all. Qed.
 Print Assumptions C01_never_reports_locals.
 
 (** the full statement, evaluated per case (pending proof) *)
